@@ -102,6 +102,9 @@ def num_q(draw, cols=NUMCOLS, affine=True, flavours=FLAVOURS):
         q["a"] = draw(st.sampled_from((2.0, -1.0, 0.5)))
         q["b"] = draw(st.sampled_from((0.0, 1.0, -0.5)))
     q["fl"] = draw(st.sampled_from(flavours))
+    if q["fl"] in ("named", "named_cached", "named_str") and draw(st.integers(0, 5)) == 0:
+        # a user's name may coincide with the name of one of the library's own functions
+        q["name"] = draw(st.sampled_from(("identity", "square", "unweighted", "x")))
     return q
 
 
@@ -400,6 +403,11 @@ def streams(draw, spec, max_rows=30, exact_bias=True, nonpositive=True, none_cat
         hi = draw(st.sampled_from((n, n, draw(st.integers(lo + 1, n)))))
         for row, _ in out[lo:hi]:
             row[col] = v
+    if n >= 2 and draw(st.integers(0, 7)) == 0 and any(s_["k"] in ("Fraction", "Select") and s_["q"].get("col") == "w" for _, s_ in walk_spec(spec)):
+        # a weight-valued cut whose passing weight adds up to the total weight although the two sides of the cut hold
+        # different data: cut values 2 and 0 in turn, unit weights, an even number of rows
+        out = out[: 2 * (n // 2)]
+        out = [(dict(row, w=2.0 if i_ % 2 == 0 else 0.0), 1.0) for i_, (row, _) in enumerate(out)]
     return out, exactish
 
 
